@@ -3,6 +3,7 @@ package main
 import (
 	"bytes"
 	"fmt"
+	"sync"
 
 	"github.com/sergeymakinen/go-crypt/sha1"
 )
@@ -234,6 +235,47 @@ func corrC13(outDir string, seed uint64, tier string, replay string) *report {
 			rep.count(fmt.Sprint("hist", pass, i), true)
 			rep.bump("history_replays")
 		}
+	}
+	// determinism does not depend on what else is running: the recorded calls again, from 8 goroutines at once
+	// (shuffled per goroutine), each result compared with the first one
+	{
+		type bad struct {
+			name     string
+			got, exp []byte
+		}
+		var mu sync.Mutex
+		var bads []bad
+		var wg sync.WaitGroup
+		sample := hist
+		if len(sample) > 160 {
+			sample = sample[:160]
+		}
+		for w := 0; w < 8; w++ {
+			wg.Add(1)
+			wr := newRng(seed*131 + uint64(w))
+			go func() {
+				defer wg.Done()
+				for k := 0; k < len(sample); k++ {
+					h := sample[wr.intn(len(sample))]
+					a := h.a
+					a.pw, a.salt = append([]byte(nil), a.pw...), append([]byte(nil), a.salt...)
+					got, err := keyOf(a)
+					if err != nil || !bytes.Equal(got, h.key) {
+						mu.Lock()
+						if len(bads) < 4 {
+							bads = append(bads, bad{h.name, got, h.key})
+						}
+						mu.Unlock()
+					}
+				}
+			}()
+		}
+		wg.Wait()
+		for _, b := range bads {
+			rep.fail(map[string]interface{}{"scheme": b.name, "concurrency": "8 goroutines deriving keys of all schemes at once"}, fmt.Sprintf("%x", b.exp), fmt.Sprintf("%x", b.got),
+				"Key returns another result for the same arguments while other derivations are running (shared scratch memory)")
+		}
+		rep.Distribution["concurrent_rederivations"] = 8 * len(sample)
 	}
 	for _, oc := range optsChanged {
 		rep.fail(oc, "the options argument holds after the call what it held before", oc["after_the_call"], "Key writes into the options struct passed by the caller")
